@@ -233,3 +233,95 @@ class InjIndexes(Contract):
             "length": Len(pumpinginj) == n,
             "injection_pumping_nonnegative": ForAll(0, n, lambda i: pumpinginj[i] >= 0.0),
         }
+
+
+# ---------------------------------------------------------------------------------------------------------------------
+# 'the frictional pressure loss in a well does not increase when only its diameter is enlarged' - the LAMINAR regime
+# (f = 64/Re).  The turbulent branch (Colebrook iteration: log10 and fractional powers) stays undecided.
+import z3  # noqa: E402
+
+from contracts.c05_wellbores import WellPressureDrop as WPD  # noqa: E402
+from pyvc.contracts import Relational  # noqa: E402
+from pyvc.spec import Uf  # noqa: E402
+from pyvc.values import to_real  # noqa: E402
+
+
+def _laminar_condition(friction, st):
+    """the run's own regime test `Rewateraverage < 2300.0`, read off the merged result: the friction factor is
+    If(<that test>, 64/Re, <Colebrook>)"""
+    from pyvc.spec import unV
+    from pyvc.values import CellRef
+    v = unV(friction)
+    sq = st.cells[v.cid] if isinstance(v, CellRef) else v
+    t = sq.get(z3.Int("regime_probe"))
+    stack, seen = [t], set()
+    while stack:
+        x = stack.pop()
+        if not z3.is_expr(x) or x.get_id() in seen:
+            continue
+        seen.add(x.get_id())
+        if z3.is_app(x) and x.decl().kind() == z3.Z3_OP_ITE and "2300" in x.arg(0).sexpr():
+            return x.arg(0)
+        stack.extend(x.children())
+    return None
+
+
+@contract
+class FrictionLossVsDiameter(Contract, Relational):
+    key = WPD.key
+    label = "WellPressureDrop[diameter + delta]"
+    property_ids = ("C15",)
+    params = WPD.params
+    result = None
+    shared_symbols = True
+    nonlinear_ground = True
+    inline_callees = WPD.inline_callees
+    uninterpreted = WPD.uninterpreted
+    snapshot = WPD.snapshot
+    result_at_call = WPD.result_at_call
+    assumptions = ("C15 friction vs diameter: decided for the laminar regime only (both runs take the code's own branch "
+                   "`Rewateraverage < 2300`), positive flow rate, depth and diameter; water density and viscosity are "
+                   "uninterpreted positive functions (A3).  The turbulent branch (Colebrook iteration) is not decided",)
+
+    def configs(self):
+        return [("impedance=True", {"impedancemodelused": True})]
+
+    def requires(self, s):
+        return {"nonempty": Len(s.Taverage) >= 1,
+                "positive": And(s.wellflowrate > 0, s.depth > 0, s.welldiam > 0)}
+
+    def second_run_args(self, cfg):
+        return {"welldiam": lambda ex, v: to_real(v) + z3.Real("delta_diam")}
+
+    def relate(self, s1, s2):
+        return {"diameter_enlarged": Uf("delta_diam") >= 0}
+
+    def extra_axioms(self, ctx):
+        out = []
+        a, b = z3.Reals("ua ub")
+        for name in ("density_water_kg_per_m3", "viscosity_water_Pa_sec"):
+            for arity in (1, 2):
+                try:
+                    f = ctx.uf(name, *([z3.RealSort()] * arity), z3.RealSort())
+                except Exception:
+                    continue
+                args = [a, b][:arity]
+                out.append(z3.ForAll(args, f(*args) > 0, patterns=[f(*args)]))
+        return out
+
+    def ensures_rel(self, s1, s2, r1, r2):
+        from pyvc.spec import V
+        c1, c2 = _laminar_condition(r1[1], s1._st), _laminar_condition(r2[1], s2._st)
+        if c1 is None or c2 is None:
+            from pyvc.values import Unsupported
+            raise Unsupported("WellPressureDrop: the regime test `Rewateraverage < 2300` is no longer recognisable in the result")
+        dp1, dp2 = r1[0], r2[0]
+        from pyvc.spec import unV
+
+        def under(seq, cond):
+            # the element with the regime test replaced by `true` - equal to the element itself under the hypothesis
+            # of the clause (keeps the Colebrook branch out of the query)
+            return lambda i: V(z3.simplify(z3.substitute(to_real(unV(seq[i])), (cond, z3.BoolVal(True)))))
+        e1, e2 = under(dp1, c1), under(dp2, c2)
+        return {"laminar_friction_loss_does_not_increase_with_diameter": Implies(
+            And(V(c1), V(c2)), ForAll(0, Len(dp1), lambda i: e2(i) <= e1(i)))}
